@@ -560,13 +560,14 @@ def checkpoint_padding(repo, col, R):
     pads = [s for s in exg.stores if s.kind == "sub" and unparse(s.node).startswith("externals[") and any(given(g) for g in s.guards)]
     if not pads:
         raise AnalysisError("integrate: padding of externals for checkpointing not found")
+    from sa.terms import fuse_comprehensions as _fuse_p
     for s in pads:
-        v = s.value
+        v = _fuse_p(s.value)        # `for k, v in d.items()`: v is d[k]
         ok = False
         detail = v.short(120)
         if v.op == "mcall" and v.name == "concatenate" and v.args[1].op in ("list", "tuple") and len(v.args[1].args) == 2:
             first, second = v.args[1].args
-            ok = first.op == "sub" and first.args[0].pretty().startswith("add_") or first.op == "sub"
+            ok = first.op == "sub"
             ok = ok and T.find(second, lambda x: x.op == "mcall" and x.name == "zeros") is not None and \
                 T.find(first, lambda x: x.op == "mcall" and x.name == "zeros") is None
         elif v.op == "mcall" and v.name == "pad":
